@@ -56,7 +56,7 @@ theorem payOuts_forIn (ms : Mid) (l : List (ScOut × Id)) :
   have := List.forIn_pure_yield_eq_foldl (m := VM) (l := l) (fun (x : ScOut × Id) (s : Mid) => s.createImmatureSc x.2 x.1) ms
   exact this
 
-theorem applyTransaction_eq (ms : Mid) (t : Txn1) :
+theorem applyTransaction_eq_c1 (ms : Mid) (t : Txn1) :
     applyTransaction ms t = (do
       let ms ← t.scIns.foldlM (stepScIn1 t.supp) ms
       let ms ← t.scOuts.foldlM stepScOut ms
@@ -68,19 +68,19 @@ theorem applyTransaction_eq (ms : Mid) (t : Txn1) :
       pure (foundation1 ms t)) := by
   unfold applyTransaction
   simp only []
-  rw [forIn_eq_foldlM t.scIns ms _ (stepScIn1 t.supp)]
+  rw [forIn_eq_foldlM_c1 t.scIns ms _ (stepScIn1 t.supp)]
   · congr 1; funext ms
-    rw [forIn_eq_foldlM t.scOuts ms _ stepScOut]
+    rw [forIn_eq_foldlM_c1 t.scOuts ms _ stepScOut]
     · congr 1; funext ms
-      rw [forIn_eq_foldlM t.sfIns ms _ (stepSfIn1 t.supp)]
+      rw [forIn_eq_foldlM_c1 t.sfIns ms _ (stepSfIn1 t.supp)]
       · congr 1; funext ms
-        rw [forIn_eq_foldlM t.sfOuts ms _ stepSfOut]
+        rw [forIn_eq_foldlM_c1 t.sfOuts ms _ stepSfOut]
         · congr 1; funext ms
-          rw [forIn_eq_foldlM t.fcs ms _ stepFc1]
+          rw [forIn_eq_foldlM_c1 t.fcs ms _ stepFc1]
           · congr 1; funext ms
-            rw [forIn_eq_foldlM t.revs ms _ (stepRev1 t.supp)]
+            rw [forIn_eq_foldlM_c1 t.revs ms _ (stepRev1 t.supp)]
             · congr 1; funext ms
-              rw [forIn_eq_foldlM t.proofs ms _ (stepProof1 t.supp)]
+              rw [forIn_eq_foldlM_c1 t.proofs ms _ (stepProof1 t.supp)]
               · congr 1; funext ms
                 unfold foundation1
                 split
@@ -133,7 +133,7 @@ def finish2 (ms : Mid) (t : Txn2) : Mid :=
     else { ms with natts := ms.natts + t.natts, fPrimary := a }
   | none => { ms with natts := ms.natts + t.natts }
 
-theorem applyV2Transaction_eq (ms : Mid) (t : Txn2) :
+theorem applyV2Transaction_eq_c1 (ms : Mid) (t : Txn2) :
     applyV2Transaction ms t = (do
       let ms ← t.scIns.foldlM stepScIn2 ms
       let ms ← t.scOuts.foldlM stepScOut ms
@@ -145,19 +145,19 @@ theorem applyV2Transaction_eq (ms : Mid) (t : Txn2) :
       pure (finish2 ms t)) := by
   unfold applyV2Transaction
   simp only []
-  rw [forIn_eq_foldlM t.scIns ms _ stepScIn2]
+  rw [forIn_eq_foldlM_c1 t.scIns ms _ stepScIn2]
   · congr 1; funext ms
-    rw [forIn_eq_foldlM t.scOuts ms _ stepScOut]
+    rw [forIn_eq_foldlM_c1 t.scOuts ms _ stepScOut]
     · congr 1; funext ms
-      rw [forIn_eq_foldlM t.sfIns ms _ stepSfIn2]
+      rw [forIn_eq_foldlM_c1 t.sfIns ms _ stepSfIn2]
       · congr 1; funext ms
-        rw [forIn_eq_foldlM t.sfOuts ms _ stepSfOut]
+        rw [forIn_eq_foldlM_c1 t.sfOuts ms _ stepSfOut]
         · congr 1; funext ms
-          rw [forIn_eq_foldlM t.fcs ms _ stepFc2]
+          rw [forIn_eq_foldlM_c1 t.fcs ms _ stepFc2]
           · congr 1; funext ms
-            rw [forIn_eq_foldlM t.revs ms _ stepRev2]
+            rw [forIn_eq_foldlM_c1 t.revs ms _ stepRev2]
             · congr 1; funext ms
-              rw [forIn_eq_foldlM t.ress ms _ stepRes2]
+              rw [forIn_eq_foldlM_c1 t.ress ms _ stepRes2]
               · congr 1; funext ms
                 unfold finish2
                 cases t.newFoundation with
@@ -187,8 +187,8 @@ theorem applyV2Transaction_eq (ms : Mid) (t : Txn2) :
 -- ------------------------------------------------------------------ blocks
 
 def Block.fees1 (b : Block) : List Cur := (b.txns1.map (·.fees)).flatten
-def Block.txns2 (b : Block) : List Txn2 := match b.v2 with | some (_, _, ts) => ts | none => []
-def Block.fees2 (b : Block) : List Cur := b.txns2.map (·.fee)
+def Block.v2txns (b : Block) : List Txn2 := match b.v2 with | some (_, _, ts) => ts | none => []
+def Block.fees2 (b : Block) : List Cur := b.v2txns.map (·.fee)
 
 def stepV1 (pid : Id) (mw : Nat) (ms : Mid) (t : Txn1) : VM Mid := do
   validateTransaction ms t pid mw
@@ -212,7 +212,7 @@ theorem validateBlock_ok {L : Ledger} {b : Block} {pid : Id} {ms : Mid}
     (h : validateBlock L b pid = .ok ms) :
     validateOrphan L b = .ok () ∧ validateSupplement L b = .ok () ∧
     ∃ ms1, b.txns1.foldlM (stepV1 pid b.maxWeight) (newMid L) = .ok ms1 ∧
-           b.txns2.foldlM (stepV2 b.maxWeight) ms1 = .ok ms := by
+           b.v2txns.foldlM (stepV2 b.maxWeight) ms1 = .ok ms := by
   unfold validateBlock at h
   rw [bind_eq_ok] at h; obtain ⟨u1, h1, h⟩ := h
   rw [bind_eq_ok] at h; obtain ⟨u2, h2, h⟩ := h
@@ -222,7 +222,7 @@ theorem validateBlock_ok {L : Ledger} {b : Block} {pid : Id} {ms : Mid}
           let ms ← applyTransaction __s t
           pure (ForInStep.yield ms) : VM (ForInStep Mid))) = b.txns1.foldlM (stepV1 pid b.maxWeight) ms0 := by
     intro ms0
-    apply forIn_eq_foldlM
+    apply forIn_eq_foldlM_c1
     intro t s; unfold stepV1
     cases validateTransaction s t pid b.maxWeight with
     | error e => rfl
@@ -232,13 +232,13 @@ theorem validateBlock_ok {L : Ledger} {b : Block} {pid : Id} {ms : Mid}
           let ms ← applyV2Transaction __s t
           pure (ForInStep.yield ms) : VM (ForInStep Mid))) = txns.foldlM (stepV2 b.maxWeight) ms0 := by
     intro txns ms0
-    apply forIn_eq_foldlM
+    apply forIn_eq_foldlM_c1
     intro t s; unfold stepV2
     cases validateV2Transaction s t b.maxWeight with
     | error e => rfl
     | ok u => cases applyV2Transaction s t <;> rfl
   simp only [e1, e2] at h
-  unfold Block.txns2
+  unfold Block.v2txns
   generalize b.v2 = v at h ⊢
   rcases v with _ | ⟨a, c, txns⟩
   · simp only [] at h
@@ -252,13 +252,13 @@ theorem validateBlock_ok {L : Ledger} {b : Block} {pid : Id} {ms : Mid}
       rw [bind_eq_ok] at hk2; obtain ⟨ms2, hk3, hk4⟩ := hk2
       cases hk4; exact hk3
 
-theorem midApplyBlock_eq (ms : Mid) (b : Block) :
+theorem midApplyBlock_eq_c1 (ms : Mid) (b : Block) :
     midApplyBlock ms b =
       (if ms.base.child ≥ ms.base.P.v2Require ∧ (b.txns1.length ≠ 0 ∨ b.expiring.length ≠ 0) then
         gopanic "consensus: block supplement must be empty after v2 hardfork"
       else do
         let ms ← b.txns1.foldlM applyTransaction ms
-        let ms ← b.txns2.foldlM applyV2Transaction ms
+        let ms ← b.v2txns.foldlM applyV2Transaction ms
         let ms ← b.payouts.foldlM stepPayout ms
         let sub ← foundationSubsidy ms.base
         b.expiring.foldlM stepExpire (applySubsidy ms b sub)) := by
@@ -266,15 +266,15 @@ theorem midApplyBlock_eq (ms : Mid) (b : Block) :
   have e1 : ∀ ms0, (forIn b.txns1 ms0 fun t __s => (do
           let ms ← applyTransaction __s t
           pure (ForInStep.yield ms) : VM (ForInStep Mid))) = b.txns1.foldlM applyTransaction ms0 := by
-    intro ms0; apply forIn_eq_foldlM; intro t s; rfl
+    intro ms0; apply forIn_eq_foldlM_c1; intro t s; rfl
   have e2 : ∀ (txns : List Txn2) ms0, (forIn txns ms0 fun t __s => (do
           let ms ← applyV2Transaction __s t
           pure (ForInStep.yield ms) : VM (ForInStep Mid))) = txns.foldlM applyV2Transaction ms0 := by
-    intro txns ms0; apply forIn_eq_foldlM; intro t s; rfl
+    intro txns ms0; apply forIn_eq_foldlM_c1; intro t s; rfl
   have e3 : ∀ ms0, (forIn b.payouts ms0 fun x __s => match x with
           | (id, o) => (pure (ForInStep.yield (__s.createImmatureSc id o)) : VM (ForInStep Mid))) =
         b.payouts.foldlM stepPayout ms0 := by
-    intro ms0; apply forIn_eq_foldlM; intro x s; obtain ⟨id, o⟩ := x; rfl
+    intro ms0; apply forIn_eq_foldlM_c1; intro x s; obtain ⟨id, o⟩ := x; rfl
   have e4 : ∀ ms0, (forIn b.expiring ms0 fun x __s => match x with
           | (e, ids) =>
             if __s.isSpent e.id = true then (pure (ForInStep.yield __s) : VM (ForInStep Mid))
@@ -282,7 +282,7 @@ theorem midApplyBlock_eq (ms : Mid) (b : Block) :
               let __s ← forIn (e.fc.missed.zip ids) (__s.resolveFc1 e false) fun x __s => match x with
                 | (o, id) => (pure (ForInStep.yield (__s.createImmatureSc id o)) : VM (ForInStep Mid))
               pure (ForInStep.yield __s)) = b.expiring.foldlM stepExpire ms0 := by
-    intro ms0; apply forIn_eq_foldlM; intro x s; obtain ⟨e, ids⟩ := x
+    intro ms0; apply forIn_eq_foldlM_c1; intro x s; obtain ⟨e, ids⟩ := x
     unfold stepExpire; simp only []
     split
     · rfl
@@ -290,7 +290,7 @@ theorem midApplyBlock_eq (ms : Mid) (b : Block) :
   simp only [e1, e2, e3, e4]
   split
   · rfl
-  · unfold Block.txns2
+  · unfold Block.v2txns
     congr 1; funext ms1
     generalize b.v2 = v
     have tail : ∀ ms2 : Mid, (do
